@@ -205,8 +205,13 @@ func Permutations(n int) [][]int {
 	return out
 }
 
-// ComparatorKeys stress both key comparators (length-first vs bytewise, case, multi-byte).
-var ComparatorKeys = []string{"a", "b", "aa", "ab", "B", "z", "é", "ee", "", "😀"}
+// ComparatorKeys stress the key comparators: length-first vs bytewise, case, byte length vs rune
+// count (é, 😀), and UTF-8 bytewise vs UTF-16 code-unit order (U+FF46 sorts after the non-BMP 😀
+// by code units, before it bytewise).
+var ComparatorKeys = []string{"a", "b", "aa", "ab", "B", "z", "é", "ee", "", "😀", "\uff46"}
+
+// LinkOrderKeys: the comparator-relevant keys in a set small enough for the link-system sweeps.
+var LinkOrderKeys = []string{"a", "aa", "ab", "B", "é", "😀", "\uff46", ""}
 
 // Subsets of size k of idx 0..n-1.
 func Subsets(n, k int) [][]int {
